@@ -80,7 +80,7 @@ PROPS = {
             # response fields also carry the attribute, but no given property constrains it there (C01 allows null-vs-absent)
             ('SKIP-NONE', inst_has('ResolvedVariable', 'StoredInputType', 'floor')), ('ONEOF-SHAPE', None),
             ('VARS-ORIGIN', None), ('TYPES-2', None), ('TYPES-4', None)],
-    'C05': [('ATTR-PATHS', inst_has('set_query_file')), ('OP-NOT-FOUND-MSG', None), ('ROOTS', None), ('ID-INDEX', None), ('GRAMMAR', None), ('BODY-STRUCT', None), ('BODY-CONST', None), ('BODY-IMPL', None), ('INCLUDE-STR', None), ('WIRE-1', inst_has('OPERATION_NAME', 'QUERY')),
+    'C05': [('POST-HELPER', None), ('ATTR-PATHS', inst_has('set_query_file')), ('OP-NOT-FOUND-MSG', None), ('ROOTS', None), ('ID-INDEX', None), ('GRAMMAR', None), ('BODY-STRUCT', None), ('BODY-CONST', None), ('BODY-IMPL', None), ('INCLUDE-STR', None), ('WIRE-1', inst_has('OPERATION_NAME', 'QUERY')),
             ('BODY-KEYS', None), ('NO-FALLBACK', None), ('SAME-OP', None), ('QUERY-TEXT', None)],
     'C06': [('SET-SCOPE', None), ('ID-INDEX', None), ('CACHE-KEY', None), ('TYPENAME-SAME-TYPE', None), ('ROOTS-AGREE', None), ('LOOKUP-CHECKED', None), ('ERR-PROPAGATED', inst_has('query::', 'graphql_client_codegen::', 'GeneratedModule', 'codegen::')),
             ('VALIDATE-ORDER', None), ('KIND-MATRIX', None), ('COND-MATRIX', None), ('TYPENAME-MATRIX', None), ('ROOTS', None), ('UNION-FIELDS', None)],
